@@ -169,7 +169,7 @@ class Repo:
         self.desugared = []
         self.normalized = []
         for fi in funcs:
-            node, ch = desugar(fi.raw_node, self.modules[fi.module].globals_assigned)
+            node, ch = desugar(fi.raw_node, self.modules[fi.module].globals_assigned, self._cls_seqs(fi.cls))
             if ch:
                 fi.node = fi.raw_node = node
                 self.desugared.append(fi.fq)
@@ -195,7 +195,7 @@ class Repo:
         for fi in funcs:
             if fi.fq in expanded:
                 # the spliced bodies introduce new aliases / named conditions: normalise again
-                node, _ch = desugar(expanded[fi.fq], self.modules[fi.module].globals_assigned)
+                node, _ch = desugar(expanded[fi.fq], self.modules[fi.module].globals_assigned, self._cls_seqs(fi.cls))
                 node, _ch = normalize_function(node, self._sig_resolver(fi), self._list_attrs(fi.cls), self._mod_consts(fi), self._cls_consts(fi.cls))
                 # spliced helper bodies carry the helper's line numbers: give the function synthetic,
                 # monotone positions (document order) for the rules that order statements, and keep
@@ -292,6 +292,31 @@ class Repo:
                     if isinstance(n, ast.Attribute) and isinstance(n.ctx, ast.Store) and n.attr in out:
                         out.pop(n.attr, None)
         return out
+
+    def _cls_seqs(self, ci):
+        """class-level tuple / list displays (through the MRO) that no method stores to: readable as self.X"""
+        if ci is None:
+            return {}
+        if not hasattr(self, '_cs_cache'):
+            self._cs_cache = {}
+        if ci.fq not in self._cs_cache:
+            out = {}
+            for c in reversed(self.mro(ci)):
+                for k, v in c.class_attrs.items():
+                    if isinstance(v, (ast.Tuple, ast.List, ast.BinOp, ast.Name)):
+                        out[k] = v
+                    else:
+                        out.pop(k, None)
+            for m in self.modules.values():
+                for n in ast.walk(m.tree):
+                    if isinstance(n, ast.Attribute) and isinstance(n.ctx, (ast.Store, ast.Del)) and n.attr in out:
+                        out.pop(n.attr, None)
+                    elif isinstance(n, ast.Call) and isinstance(n.func, ast.Name) and n.func.id in ('setattr', 'delattr'):
+                        if len(n.args) >= 2 and not isinstance(n.args[1], ast.Constant):
+                            pass       # a computed name: handled where it is unrolled; class constants start with no store
+            out['#classes'] = tuple(c.name for c in self.mro(ci))
+            self._cs_cache[ci.fq] = out
+        return self._cs_cache[ci.fq]
 
     def _list_attrs(self, ci):
         """attributes that every __init__ / reset of the class hierarchy binds to a list display"""
